@@ -382,7 +382,7 @@ fn gen(seed: u64, n: usize, path: &str, tier: &str) -> std::io::Result<()> {
 /// mis-pair the spread attributes) is repaired in /repo (hooks/fix-c03-8.patch).  While `false`
 /// the generator keeps the type of an `AnyView` that receives spread attributes and gives it at
 /// most one top-level element; `C03_SPREAD_ANY=1` overrides.
-const SPREAD_ANY_REPAIRED: bool = false;
+const SPREAD_ANY_REPAIRED: bool = true;
 
 /// whether lean/Driver/C03.lean understands the `k` (keyed) type
 const LEAN_HAS_KEYED: bool = false;
